@@ -106,6 +106,7 @@ def coverage(chk, sf, dprog, cfg):
     chk.floor("R3.1", n, 5, "skip(field), compact(field), encoded_as(field), skip(variant), index(variant)")
 
 
+@cd.cross_check('R3.2', 'the translation-validation corpus (R9.T) (SkippedVariants, CodecIndex, ExprDiscriminants)')
 def numbering(chk, sf, dprog, cfg):
     chk.rule("R3.2", "variant numbering: variants are filtered by !should_skip strictly before enumerate(), and variant_index receives the "
              "enumerate counter and the variant of the same item — in scale-info-derive (MIR) and in the codec derive (syn)")
@@ -225,6 +226,7 @@ def numbering(chk, sf, dprog, cfg):
     chk.floor("R3.2", users, 2, "codec derive functions that number variants (encode, decode)")
 
 
+@cd.cross_check('R3.3', 'the translation-validation corpus (R9.T) (CodecIndex, ExprDiscriminants)')
 def precedence(chk, sf, dprog, cfg):
     chk.rule("R3.3", "variant index precedence: #[codec(index = N)] > explicit discriminant > position, in both crates; the derive emits "
              "`.index(<that> as ::core::primitive::u8)`")
@@ -247,6 +249,9 @@ def precedence(chk, sf, dprog, cfg):
                 if decl == "quote::to_tokens::ToTokens::to_tokens" or name.endswith("ToTokens::to_tokens"):
                     log.append(args[0])
                     return ("tuple", [])
+                if name.endswith("ToTokens::to_token_stream") or name.endswith("ToTokens::into_token_stream"):
+                    log.append(args[0])
+                    return absint.Sym("ts")
                 if "TokenStream" in name and name.endswith("::new"):
                     return absint.Sym("ts")
                 if "quote::__private::" in name or name.startswith("quote::"):
@@ -303,6 +308,10 @@ def emission(chk, dprog, cfg):
             continue
         n += 1
         ok, why = cd.is_skip_filter(dprog, consumer, body=b, site=ct)
+        if not ok and (cd.is_gathering(consumer) or (consumer is None and mir.unref(b.return_term()) == ct)):
+            chk.abstain("R3.4", "iteration:%s:%s" % (owner, elem.split("::")[-1]), b.where(bb), "the members are first gathered (%s); the selection happens on the gathered list" % (consumer[1]["name"].split("::")[-1] if consumer else "returned to a flat_map"), cfg,
+                        decided_by="corpus declarations SkippedFields, SkippedVariants, MultiAttr* (R9.T) and witnesses c13_skip_member, c13_skip_second_attr")
+            continue
         chk.expect(ok, "R3.4", "iteration:%s:%s" % (owner, elem.split("::")[-1]), b.where(bb),
                    "%s over %s: %s" % (path_str(ct)[:60], elem.split("::")[-1], why) + ("" if ok else
                    " -- #[codec(skip)] members are not encoded, so they must not be described (nor bound)"), cfg)
